@@ -53,7 +53,9 @@ fn spell(path: &str, form: Form) -> String {
     }
 }
 
-const MEDIA: &[&str] = &["", "screen", "(w:1px)", "screen and (w:75rpx)", "all and (w:1px)", "all, print", "not all", "only screen and (color), print and (w:2px)"];
+const MEDIA: &[&str] = &["", "screen", "(w:1px)", "screen and (w:75rpx)", "all and (w:1px)", "all, print", "not all", "only screen and (color), print and (w:2px)",
+    // a condition in function notation (the grammar's <general-enclosed>), at the start of the list and behind `and`
+    "foo(b)", "(w:1px) and foo(b)"];
 /// layer conditions: none, a plain name, a dotted name, the bare keyword
 /// supports() conditions: none, a declaration, a negation, a conjunction, a selector() test with a class and an rpx length
 const SUPPORTS: &[&str] = &["", "d:v", "not (d:v)", "(a:b) and (c:1rpx)", "selector(.s > t)"];
